@@ -5,6 +5,7 @@ import (
 	"fmt"
 	"sort"
 	"strings"
+	"sync"
 	"time"
 
 	p9p "github.com/frobnitzem/go-p9p"
@@ -41,6 +42,7 @@ type c12Spec struct {
 	Dev       int
 	Big       bool // too large for preemption bounding in the quick tier
 	CancelOne bool // caller 0's own context is cancelled by another task at an arbitrary moment
+	ExpireOne bool // caller 0's own context reaches its deadline (context.DeadlineExceeded) at an arbitrary moment
 	Expiry    bool // write faults include "the write deadline has passed"; caller 0 carries a context deadline
 }
 
@@ -164,6 +166,11 @@ func c12Scenario(sp c12Spec) *explore.Scenario {
 						ctx, cancel = vsched.WithCancel(ctx)
 						vsched.Go("cancel-call0", func() { cancel() })
 					}
+					if spec.ExpireOne && i == 0 {
+						ec := newExpiringCtx(ctx)
+						ctx = ec
+						vsched.Go("expire-call0", func() { ec.expire() })
+					}
 					if spec.Expiry && i == 0 {
 						// a per-call deadline (it never fires by itself: time
 						// does not pass inside an execution; its expiry is the
@@ -278,6 +285,8 @@ func c12Specs() []c12Spec {
 			Expect: map[int]string{0: "err", 10: "err", 20: "err"}},
 		// one call's own context ends at any moment; the peer answers everything
 		{Name: "call-cancel", Pending: 2, Late: true, CancelOne: true, Big: true, Expect: map[int]string{10: "own", 90: "own"}},
+		{Name: "call-deadline", Pending: 2, Late: true, ExpireOne: true, Big: true, Expect: map[int]string{10: "own", 90: "own"}},
+		{Name: "call-deadline-sync", Pending: 3, Late: true, ExpireOne: true, Sync: true, Big: true, Expect: map[int]string{10: "own", 20: "own", 90: "own"}},
 		{Name: "call-cancel-sync", Pending: 3, Late: true, CancelOne: true, Sync: true, Big: true, Expect: map[int]string{10: "own", 20: "own", 90: "own"}},
 		{Name: "read-faults", Pending: 2, Late: true, FaultR: true, Dev: 1, Big: true},
 		{Name: "read-faults-1", Pending: 1, Late: true, FaultR: true, Dev: 1},
@@ -427,7 +436,7 @@ func c12WrongTypeAll() *explore.Scenario {
 
 func c12(c *core.Ctx) {
 	c.Budget(100*time.Second, 14*time.Minute)
-	c.SetRule("scenarios: a real CSession with 1-2 pending calls and one call issued afterwards against a scripted peer that sends a reply with an unknown tag, the same reply twice, a reply of the wrong type, an undecodable / short / impossible-length / oversize frame, a truncated frame then close, or closes (also while several requests are still unwritten on a connection without buffering); one call's own context cancelled at every point while the peer answers everything (the other calls must get their own results); plus client-side read or write errors placed at every Read/Write (1 deviation) and session-context cancellation at every point; all interleavings up to the bound; after its misbehaviour the peer keeps draining and answering, then closes. outcome = per-call classification (own / err / stuck)")
+	c.SetRule("scenarios: a real CSession with 1-2 pending calls and one call issued afterwards against a scripted peer that sends a reply with an unknown tag, the same reply twice, a reply of the wrong type, an undecodable / short / impossible-length / oversize frame, a truncated frame then close, or closes (also while several requests are still unwritten on a connection without buffering); one call's own context cancelled, or its deadline reached (context.DeadlineExceeded), at every point while the peer answers everything (the other calls must get their own results); plus client-side read or write errors placed at every Read/Write (1 deviation) and session-context cancellation at every point; all interleavings up to the bound; after its misbehaviour the peer keeps draining and answering, then closes. outcome = per-call classification (own / err / stuck)")
 	c.Assume("'bounded time' is decided as quiescence: a call still parked when nothing is enabled, while the peer keeps draining or has closed, is a hang; I/O deadlines never fire inside an execution")
 	var plans []Plan
 	for _, sp := range c12Specs() {
@@ -444,6 +453,35 @@ func c12(c *core.Ctx) {
 	wt := c12WrongTypeAll()
 	plans = append(plans, Plan{Sc: wt, Delay: true, Max: 2})
 	runPlans(c, plans)
+}
+
+// expiringCtx is a context with a deadline that is reached when the
+// harness says so (time does not pass by itself inside an execution): Err
+// becomes context.DeadlineExceeded and Done is closed at a scheduling point.
+type expiringCtx struct {
+	context.Context
+	done chan struct{}
+	mu   sync.Mutex
+	err  error
+}
+
+func newExpiringCtx(parent context.Context) *expiringCtx {
+	return &expiringCtx{Context: parent, done: make(chan struct{})}
+}
+
+func (c *expiringCtx) Deadline() (time.Time, bool) { return time.Now().Add(time.Hour), true }
+func (c *expiringCtx) Done() <-chan struct{}       { return c.done }
+func (c *expiringCtx) Err() error {
+	c.mu.Lock()
+	defer c.mu.Unlock()
+	return c.err
+}
+func (c *expiringCtx) expire() {
+	vsched.Yield("ctx.expire", vsched.CtxObj)
+	c.mu.Lock()
+	c.err = context.DeadlineExceeded
+	c.mu.Unlock()
+	vsched.CloseChan("ctx.expire", c.done)
 }
 
 func lastN(s []string, n int) []string {
